@@ -66,6 +66,11 @@ def probe_pool():
         ("codesep", b("1", "CODESEPARATOR"), []),
         ("findanddelete", G.push(DER) + b(KEY, "CHECKSIG", "NOT"), []),
         ("minimalif", b("IF", "1", "ELSE", "1", "ENDIF"), [b"\x02"]),
+        ("minimalif-00", b("IF", "1", "ELSE", "RETURN", "ENDIF"), [b"\x00"]),
+        ("minimalif-00-else", b("IF", "RETURN", "ELSE", "1", "ENDIF"), [b"\x00"]),
+        ("minimalif-80", b("NOTIF", "1", "ELSE", "RETURN", "ENDIF"), [b"\x80"]),
+        ("minimalif-0100", b("IF", "1", "ELSE", "RETURN", "ENDIF"), [b"\x01\x00"]),
+        ("minimalif-0000", b("NOTIF", "1", "ELSE", "RETURN", "ENDIF"), [b"\x00\x00"]),
         ("p2sh", bytes([O["HASH160"]]) + G.push(h) + bytes([O["EQUAL"]]), [p2sh_redeem]),
         ("checksigadd", b("CHECKSIGADD"), [b"", b"", b"\x07" * 33]),
         ("plain", b("1", "2", "ADD"), []),
